@@ -976,6 +976,62 @@ pub fn run_unwind_drop(is_async: bool, unique: bool, polled_before: bool) -> Opt
     }
 }
 
+// ---------------------------------------------------------------- the last two owners dropped at the same moment on two threads (C03, C02)
+/// Stress test, NOT exhaustive and without schedule control: two threads meet at a barrier and each drops one of the last two
+/// clones of a SharedObservable; a subscriber that was pending must have been woken and must see the end of the stream.
+/// Returns the number of rounds in which it did not (each such round is a real failing schedule).
+pub fn concurrent_last_drops(is_async: bool, rounds: usize) -> usize {
+    use std::sync::Barrier;
+    let mut bad = 0;
+    for _ in 0..rounds {
+        let barrier = Arc::new(Barrier::new(2));
+        let fl = Flag::new();
+        let w = flag_waker(&fl);
+        let mut cx = Context::from_waker(&w);
+        let (b1, b2) = (barrier.clone(), barrier.clone());
+        if is_async {
+            let a = SharedObservable::<Val, AsyncLock>::new_async(Val { key: 0, tag: 0 });
+            let b = a.clone();
+            let mut sub = now(a.subscribe());
+            assert!(Pin::new(&mut sub).poll_next(&mut cx).is_pending());
+            let t1 = std::thread::spawn(move || {
+                b1.wait();
+                drop(a)
+            });
+            let t2 = std::thread::spawn(move || {
+                b2.wait();
+                drop(b)
+            });
+            t1.join().unwrap();
+            t2.join().unwrap();
+            let ended = matches!(Pin::new(&mut sub).poll_next(&mut cx), Poll::Ready(None));
+            if !ended || !fl.is_set() {
+                bad += 1;
+            }
+        } else {
+            let a = SharedObservable::new(Val { key: 0, tag: 0 });
+            let b = a.clone();
+            let mut sub = a.subscribe();
+            assert!(Pin::new(&mut sub).poll_next(&mut cx).is_pending());
+            let t1 = std::thread::spawn(move || {
+                b1.wait();
+                drop(a)
+            });
+            let t2 = std::thread::spawn(move || {
+                b2.wait();
+                drop(b)
+            });
+            t1.join().unwrap();
+            t2.join().unwrap();
+            let ended = matches!(Pin::new(&mut sub).poll_next(&mut cx), Poll::Ready(None));
+            if !ended || !fl.is_set() {
+                bad += 1;
+            }
+        }
+    }
+    bad
+}
+
 // ---------------------------------------------------------------- several operations through ONE write guard (C01)
 #[derive(Clone, Debug, PartialEq, Eq, Hash)]
 pub enum GOp {
